@@ -12,6 +12,7 @@ from __future__ import annotations
 import copy
 import logging
 import os
+import signal
 import stat
 import traceback
 
@@ -186,6 +187,7 @@ def gen_case(run_seed: int, tier: str, index: int = 0) -> dict:
         "schedule": None,
         "plan": None,  # None = enumerate; otherwise one explicit fault plan
         "crash_fork": (4 if tier == "thorough" else (2 if index % 8 == 0 else 0)),  # real process deaths at sampled boundaries
+        "rlimit_fork": (3 if tier == "thorough" else (1 if index % 4 == 1 else 0)),  # real kernel file-size limits in a forked child
     }
 
 
@@ -228,7 +230,7 @@ def _pre_state(root: str) -> dict:
     return out
 
 
-def exec_once(case: dict, plan: dict | None, ref_new: bytes | None, *, root: str | None = None, crash_at: int | None = None) -> dict:
+def exec_once(case: dict, plan: dict | None, ref_new: bytes | None, *, root: str | None = None, crash_at: int | None = None, rlimit_fsize: int | None = None) -> dict:
     """One execution with one fault plan.  Returns dict(violation, effects, fired, outcome, ...).
 
     With ``crash_at=k`` (used in a forked child only) the process dies with os._exit right at boundary k.
@@ -308,6 +310,13 @@ def exec_once(case: dict, plan: dict | None, ref_new: bytes | None, *, root: str
         before_vals = [(v, v.const_value) for v in world.init_values]
         raised = None
         aborted = False
+        if rlimit_fsize is not None:
+            # (forked child only) a REAL kernel-enforced fault: no file may grow beyond this many bytes; writes past the
+            # limit fail with EFBIG instead of killing the process
+            import resource
+
+            signal.signal(signal.SIGXFSZ, signal.SIG_IGN)
+            resource.setrlimit(resource.RLIMIT_FSIZE, (rlimit_fsize, resource.getrlimit(resource.RLIMIT_FSIZE)[1]))
         seams = workload.Seams(case, sched, seam, streams)
         with seams:
             try:
@@ -487,6 +496,50 @@ def crash_crosscheck(case: dict, n_effects: int, ref_new: bytes | None, rng, sam
     return None
 
 
+def rlimit_crosscheck(case: dict, ref_new: bytes | None, rng, samples: int, inc) -> dict | None:
+    """A file-size limit enforced by the kernel (RLIMIT_FSIZE, the same EFBIG / short-write behaviour as a full disk)
+    while a forked child saves; the parent inspects what the child left behind."""
+    options = case["options"]
+    if (options.get("max_workers") or 1) > 1 or options.get("max_shard_size_bytes") is not None or ref_new is None or len(ref_new) < 2:
+        return None
+    for _ in range(samples):
+        limit = max(1, len(ref_new) - rng.choice([1, 1, 2, 7, max(1, len(ref_new) // 3), max(1, len(ref_new) // 2)]))
+        root = workload.new_scratch("c08rlim")
+        probe = workload.new_scratch("c08probe")
+        try:
+            w0 = workload.World(copy.deepcopy(case), probe, sched=None, with_faults=False)
+            old = fsseam.fresh_read(os.path.join(w0.base, options["dest"]))
+            pre_listing = fsseam.listing(os.path.join(probe, "m"))
+            del w0
+            pid = os.fork()
+            if pid == 0:
+                code = 4
+                try:
+                    out = exec_once(case, None, ref_new, root=root, rlimit_fsize=limit)
+                    oc = out.get("outcome") or ""
+                    code = 0 if oc == "returned" else (3 if oc.startswith("raised") else 4)
+                finally:
+                    os._exit(code)
+            _pid, status = os.waitpid(pid, 0)
+            code = os.WEXITSTATUS(status) if os.WIFEXITED(status) else -1
+            inc("rlimit_crosscheck_forks")
+            inc({0: "rlimit_child_save_returned", 3: "rlimit_child_save_raised"}.get(code, "rlimit_child_other"))
+            cur = fsseam.fresh_read(os.path.join(root, "m", options["dest"]))
+            if old is not None and cur != old and cur != ref_new:
+                what = "missing" if cur is None else f"{len(cur)} bytes"
+                return {"clause": "file-size-limit-damaged-destination", "detail": f"with a kernel file-size limit of {limit} bytes (complete new data: {len(ref_new)} bytes) the save {'returned' if code == 0 else 'raised' if code == 3 else 'ended'} and the destination holds {what}: neither the previous ({len(old)}) nor the complete new bytes", "key": "file-size-limit-damaged-destination"}
+            if code == 0 and cur != ref_new:
+                return {"clause": "file-size-limit-save-returned-incomplete", "detail": f"with a kernel file-size limit of {limit} bytes the save returned but the destination holds {None if cur is None else len(cur)} bytes instead of the complete {len(ref_new)}", "key": "file-size-limit-save-returned-incomplete"}
+            if code == 3 and cur == old:
+                extra = [x for x in fsseam.listing(os.path.join(root, "m")) if x not in pre_listing]
+                if extra:
+                    return {"clause": "temp-left-after-exception", "detail": f"file-size limit {limit}: the save raised, the destination is unchanged, but {extra} were left behind", "key": "temp-left-after-exception|rlimit"}
+        finally:
+            workload.rm_scratch(root)
+            workload.rm_scratch(probe)
+    return None
+
+
 def _needs_short(world, case) -> bool:
     """Does the call have to read a tensor whose byte range reaches past the end of its file?"""
     if not world.short_source:
@@ -589,6 +642,13 @@ def run_case(case: dict) -> dict:
             return res
         inc("sharded_refused_collision")
     wkey = digest((case["tensors"], case["graphs"], case["options"], case["scenario"], case["entry"], case["sim"], case["ext_files"], case["pre_files"]))
+    if case.get("rlimit_only"):
+        # replay of a violation found by the kernel file-size-limit cross-check: run exactly that again
+        rv = rlimit_crosscheck(case, ref_new, Streams(case["run_seed"]).rng("rlimit-fork"), case.get("rlimit_fork") or 1, inc)
+        if rv is not None:
+            res["violation"] = rv
+            res["violations"].append(rv)
+        return res
     if case.get("plan") is not None:
         plans = [case["plan"]]
         exhaustive = False
@@ -624,6 +684,15 @@ def run_case(case: dict) -> dict:
                 res["case"] = c
                 res["violation"] = cv
                 res["violations"].append(cv)
+                return res
+        if case.get("rlimit_fork"):
+            rv = rlimit_crosscheck(case, ref_new, Streams(case["run_seed"]).rng("rlimit-fork"), case["rlimit_fork"], inc)
+            if rv is not None:
+                c = copy.deepcopy(case)
+                c["rlimit_only"] = True
+                res["case"] = c
+                res["violation"] = rv
+                res["violations"].append(rv)
                 return res
         plans, exhaustive = enumerate_plans(case, dry, rng, 140)
         inc("workloads_exhaustive_single_faults" if exhaustive else "workloads_sampled_faults")
